@@ -13,7 +13,7 @@ ASSUMPTIONS = [
 
 
 def bounds(tier):
-    return {'N': 3, 'sources_k': '<=2', 'carried': '<=2', 'id_length': 1, 'id_alphabet': 'U+0020..U+007E',
+    return {'N': 3 if tier == 'quick' else 4, 'sources_k': '<=2' if tier == 'quick' else '<=3', 'carried': '<=2', 'id_length': 1, 'id_alphabet': 'U+0020..U+007E',
             'reference_kinds': 'existing / unknown / blank / absent (where optional) / repeated / target=source'}
 
 
@@ -23,6 +23,13 @@ def icell(pid, op, N=2, T=60, **extra):
     sym = [('s%d' % i, 'str') for i in range(N)] + [('c0', 'str')]
     strs = ['s%d' % i for i in range(N)]
     pre = str_pre(strs + ['c0']) + distinct(strs)
+    if extra.pop('free_roid', False):
+        sym.append(('rd', 'str'))
+        pre.append("re.fullmatch('[ -~]{0,3}', rd)")
+        extra['roid'] = 'free'
+    if extra.get('twice') == 'free':
+        sym.append(('rd2', 'str'))
+        pre.append("re.fullmatch('[ -~]{0,3}', rd2)")
     cid = '%s/%s/inert/N%d' % (pid, op, N)
     for key, v in extra.items():
         cid += '/%s%s' % (key, v)
